@@ -38,8 +38,23 @@ def run(c, chk):
         g = c.func(call.callee_name() or '')
         if g is not None and g is not fn and any(x.callee_name() in ('stat', '__xstat', 'stat64', 'lstat', 'fstat') for x in g.calls()):
             helpers.add(g.name)
+    # the walk over the directory list may be a function of its own that calls itself (not analysed in place): it is a
+    # member of the search like cfg_searchpath() - what it returns is judged by the same rule
+    family = [fn]
+    work = [fn]
+    while work:
+        g0 = work.pop()
+        for call in g0.calls():
+            g = c.func(call.callee_name() or '')
+            if g is not None and g not in family and g.name in c.unknown_funcs and g.retty == 'i8*' and any(True for _ in g.calls(g.name)):
+                family.append(g)
+                work.append(g)
+            if g is not None and g is not g0 and any(x.callee_name() in ('stat', '__xstat', 'stat64', 'lstat', 'fstat') for x in g.calls()):
+                helpers.add(g.name)
+    fam = set(g.name for g in family)
     exs = sym.Explorer(c.modules, inline=helpers, max_visits=3, mod_sets=c.mod_sets, max_paths=50000)
-    paths = [p for p in exs.explore(fn) if p.end == 'ret']
+    exs.inline -= (fam - {fn.name})
+    paths = [p for g in family for p in exs.explore(g) if p.end == 'ret']
     nret = 0
     okall = True
     abs_ok = None
@@ -53,7 +68,7 @@ def run(c, chk):
             okall = False
             chk.fail('R17.1', 'searchpath-returns-nonfresh', c.where(p.last_ins), 'cfg_searchpath() returns %s, which is not a freshly allocated path' % sym.render(v))
             continue
-        if ev.name == 'cfg_searchpath':
+        if ev.name in fam:
             continue          # the recursive result: covered inductively
         if ev.name not in ('strdup', 'cfg_make_fullpath'):
             okall = False
@@ -79,7 +94,7 @@ def run(c, chk):
         # absolute names
         if ev.name == 'strdup':
             isabs = any(sym.render(cn[2]) == '*file' and cn[3] == ('c', ord('/')) and ((cn[1] == 'eq') == t) for cn, t, _ in p.assume if cn[0] == 'icmp')
-            joined = any(e.kind == 'call' and e.name in ('cfg_make_fullpath', 'cfg_searchpath') for e in p.events)
+            joined = any(e.kind == 'call' and (e.name == 'cfg_make_fullpath' or e.name in fam) for e in p.events)
             abs_ok = (abs_ok is not False) and isabs and not joined and ev.args[0] == ('p', 'file')
     if okall and nret:
         chk.ok('R17.1', 'cfg_searchpath: %d non-NULL returns' % nret, 'each is strdup()/cfg_make_fullpath() output that passed stat()==0 && S_ISREG (or the recursive result)', sample=True)
@@ -104,8 +119,9 @@ def run(c, chk):
     recurse_first = own_first = False
     for p in paths:
         names = [e.name for e in p.events if e.kind == 'call']
-        if 'cfg_searchpath' in names and 'cfg_make_fullpath' in names:
-            if names.index('cfg_searchpath') < names.index('cfg_make_fullpath'):
+        rec_ = [k for k, n_ in enumerate(names) if n_ in fam and sym.render(p.events[[i_ for i_, e_ in enumerate(p.events) if e_.kind == 'call'][k]].args[0]) == 'p->next']
+        if rec_ and 'cfg_make_fullpath' in names:
+            if rec_[0] < names.index('cfg_make_fullpath'):
                 recurse_first = True
             else:
                 own_first = True
@@ -113,7 +129,8 @@ def run(c, chk):
         dirs = [sym.render(e.args[0]) for e in p.events if e.kind == 'call' and e.name == 'cfg_make_fullpath']
         if len(dirs) >= 2 and dirs[0] == 'p->dir' and dirs[1] == 'p->next->dir':
             own_first = True
-    rec_arg_ok = all(sym.render(e.args[0]) == 'p->next' for p in paths for e in p.events if e.kind == 'call' and e.name == 'cfg_searchpath')
+    rec_arg_ok = all(sym.render(e.args[0]) in ('p->next', 'p') for p in paths for e in p.events if e.kind == 'call' and e.name in fam) and \
+        any(sym.render(e.args[0]) == 'p->next' for p in paths for e in p.events if e.kind == 'call' and e.name in fam)
     if prepend and recurse_first and not own_first and rec_arg_ok:
         chk.ok('R17.2', 'order', 'add prepends; search visits p->next (older directories) before its own directory: oldest first', sample=True)
     elif append and own_first and not recurse_first and not prepend:
@@ -121,7 +138,7 @@ def run(c, chk):
     elif (prepend and own_first) or (append and recurse_first):
         chk.fail('R17.2', 'search-order', c.where(fn), 'directories are searched newest-first: add %s but the search %s'
                  % ('prepends' if prepend else 'appends', 'tests its own directory before the rest of the list' if own_first else 'visits the rest of the list first'))
-    elif (prepend or append) and not recurse_first and not own_first and not any(e.kind == 'call' and e.name == 'cfg_searchpath' for p in paths for e in p.events):
+    elif (prepend or append) and not recurse_first and not own_first and not any(e.kind == 'call' and e.name in fam and sym.render(e.args[0]) == 'p->next' for p in paths for e in p.events):
         chk.fail('R17.2', 'search-incomplete', c.where(fn), 'cfg_searchpath() never visits the rest of the directory list: only one directory is searched')
     else:
         raise report.Broken('search-path add/search shape not recognised (prepend=%s append=%s recurse_first=%s own_first=%s)' % (prepend, append, recurse_first, own_first))
@@ -181,6 +198,9 @@ def run(c, chk):
             nexp += 1
             # the two pieces copied in: the home directory first, then the rest of the input
             pieces = bufsize.buffer_pieces(p, v)
+            if pieces is not None:
+                # an empty literal between the two (a general "join three strings" helper given "" for the middle) adds nothing
+                pieces = [x for x in pieces if not ((x[0] == 'lit' and x[1] == '') or (x[0] == 'src' and x[1] == ('str', '')))]
             srcs = [sym.render(x[1]) if x[0] == 'src' else repr(x[1]) for x in (pieces or [])]
             if pieces is None or len(pieces) != 2 or pieces[0][0] != 'src' or pieces[1][0] != 'src' \
                     or not srcs[0].endswith('->pw_dir') or 'pw_dir' in srcs[1] or not sym.mentions(pieces[1][1], lambda z: z == ('p', 'filename') or (z[0] == 'call' and z[1] == 'strchr')):
